@@ -105,8 +105,8 @@ class ExprMixin:
         for k, v in ha.items():
             if k not in b.heap and not all(z3.is_const(x) and str(x).startswith("H_") for x in v):
                 return False
-        ga = {k: v for k, v in a.ghost.items() if not k.startswith("$clock")}
-        gb = {k: v for k, v in b.ghost.items() if not k.startswith("$clock")}
+        ga = {k: v for k, v in a.ghost.items() if not k.startswith(("$clock", "$cards"))}
+        gb = {k: v for k, v in b.ghost.items() if not k.startswith(("$clock", "$cards"))}
         if ga != gb:
             return False
         return True
@@ -123,6 +123,7 @@ class ExprMixin:
             st2, v = self.ev1(node, st)
         finally:
             self.spec -= 1
+        self.spec_cards = st2.ghost.get("$cards")      # cardinality terms mentioned (for later relating facts)
         return v, list(st2.pc[n0:])
 
     def spec_eval(self, src: str, st: State, extra: dict | None = None) -> V:
@@ -708,6 +709,8 @@ class ExprMixin:
         if (isinstance(ta_, TOpaque) or isinstance(tb_, TOpaque)) \
                 and not isinstance(a.t, TNone) and not isinstance(b.t, TNone) \
                 and not isinstance(op, (ast.Is, ast.IsNot)) \
+                and not (ta_ == tb_ and isinstance(ta_, TOpaque) and ta_.nm in getattr(REG, "value_types", ())
+                         and isinstance(op, (ast.Eq, ast.NotEq))) \
                 and (ta_ != tb_ or not self.spec or isinstance(op, (ast.Lt, ast.LtE, ast.Gt, ast.GtE))):
             # comparison involving a value of unknown type: unknown outcome (assumed not to raise)
             self.note_assumed(f"comparison with an opaque value: {ast.unparse(node)[:60]}")
@@ -939,10 +942,15 @@ class ExprMixin:
             base = opt_val(base)
             t = base.t
         if isinstance(t, TMap):
+            if isinstance(idx.t, TOpt) and not isinstance(t.k, TOpt):
+                # None is not a key of this dict (spec mode: total function of the non-None payload)
+                self.raise_(st, "KeyError", opt_isnone(idx))
+                st = st.assume(z3.Not(opt_isnone(idx))) if not self.spec else st
+                idx = opt_val(idx)
             k = coerce(idx, t.k)
             has = vals.map_has(base, k)
             self.raise_(st, "KeyError", z3.Not(has))
-            st = st.assume(has)
+            st = st.assume(has) if not self.spec else st     # (spec mode: lookup is a total function)
             if not self.spec and not self.feasible(st):
                 return
             v = vals.map_get(base, k)
@@ -953,10 +961,11 @@ class ExprMixin:
             n = base.zs[0]
             ok = z3.And(-n <= i, i < n)
             self.raise_(st, "IndexError", z3.Not(ok))
-            st = st.assume(ok)
+            st = st.assume(ok) if not self.spec else st
             if not self.spec and not self.feasible(st):
                 return
-            j = z3.If(i < 0, i + n, i)
+            # (contract expressions index sequences with non-negative indices only: no wrap-around term there)
+            j = i if self.spec else z3.If(i < 0, i + n, i)
             v = vals.seq_at(base, j)
             yield (self.assume_wf(st, v) if not self.spec else st), v
             return
